@@ -1148,6 +1148,12 @@ class SetPartition(SetIndex):
             "ascending": self.ascending,
             "upsample": self.upsample,
         }
+        # Carry the divisions along instead of looking them up in the process-local
+        # ``divisions_lru`` later: the lowered expression must not depend on the state
+        # of the process that lowered it (e.g. after unpickling somewhere else)
+        divisions = self.user_divisions
+        if divisions is None:
+            divisions = tuple(self._divisions())
         index_set = _SetIndexPost(
             shuffled,
             self.other._meta.name,
@@ -1155,7 +1161,7 @@ class SetPartition(SetIndex):
             set_name,
             self.frame._meta.columns.dtype,
             kwargs,
-            self.user_divisions,
+            divisions,
         )
         return SortIndexBlockwise(index_set)
 
@@ -1212,18 +1218,8 @@ class _SetIndexPost(Blockwise):
         return divisions
 
     def _divisions(self):
-        if self.operand("user_divisions") is not None:
-            return self._get_culled_divisions(self.operand("user_divisions"))
-        kwargs = self.key_kwargs
-        key = (
-            kwargs["other"],
-            kwargs["partitions"],
-            kwargs["ascending"],
-            128e6,
-            kwargs["upsample"],
-        )
-        assert key in divisions_lru
-        return self._get_culled_divisions(divisions_lru[key][0])
+        # ``user_divisions`` always holds the divisions (see ``SetPartition._lower``)
+        return self._get_culled_divisions(self.operand("user_divisions"))
 
 
 class SortIndexBlockwise(Blockwise):
